@@ -349,6 +349,13 @@ func (s *Scope) evalQuant(e *Expr) *Val {
 	if e.VarT == "" {
 		ty = types.Typ[types.Int]
 	}
+	if ty == nil && e.VarT != "ref" && s.pkg != nil {
+		if m, ok := s.pkg.Members[e.VarT].(*ssa.Type); ok {
+			if _, _, isInt := intInfo(m.Type()); isInt {
+				ty = m.Type()
+			}
+		}
+	}
 	var sortName string
 	var v *Val
 	name := c.fresh("q." + e.Var)
@@ -523,7 +530,9 @@ func (s *Scope) evalIndex(e *Expr) *Val {
 			has := Select(Select(pres, a.T), k.T)
 			var ts []Term
 			for _, va := range vals {
-				ts = append(ts, Select(Select(va, a.T), k.T))
+				x := Select(Select(va, a.T), k.T)
+				c.mapValueAllocated(va, a.T, k.T)
+				ts = append(ts, x)
 			}
 			val, _ := c.unflatten(mt.Elem(), ts)
 			return c.iteVal(has, val, c.zero(mt.Elem()))
